@@ -487,7 +487,12 @@ where
         self.clear_tx.send(wg.add(1)).await.map_err(|e| {
             CacheError::SendError(format!("fail to send clear signal to working thread {}", e))
         })?;
-        wg.wait().await;
+
+        // Every signal queued before a close() began is honoured by the processor; one queued
+        // after that may never be looked at, so only wait in the former case.
+        if !self.is_closed.load(Ordering::SeqCst) {
+            wg.wait().await;
+        }
 
         Ok(())
     }
@@ -560,7 +565,11 @@ where
         let wait_item = Item::Wait(wg.add(1));
         match self.insert_buf_tx.try_send(wait_item) {
             Ok(_) => {
-                wg.wait().await;
+                // Every item buffered before a close() began is released by the processor; one
+                // buffered after that may never be looked at, so only wait in the former case.
+                if !self.is_closed.load(Ordering::SeqCst) {
+                    wg.wait().await;
+                }
                 Ok(())
             }
             Err(e) => Err(CacheError::SendError(format!(
@@ -600,17 +609,18 @@ where
     /// `close` stops all threads and closes all channels.
     #[inline]
     pub async fn close(&self) -> Result<(), CacheError> {
-        if self.is_closed.load(Ordering::SeqCst) {
+        // Closed from here on: concurrent callers return at once, and nobody starts waiting
+        // for work the processor will not look at any more.
+        if self.is_closed.swap(true, Ordering::SeqCst) {
             return Ok(());
         }
 
-        self.clear().await?;
-        // Block until processItems thread is returned
+        // The processor empties the cache and releases everything that is still buffered
+        // before it returns.
         self.stop_tx.send(()).await.map_err(|e| {
             CacheError::SendError(format!("fail to send stop signal to working thread, {}", e))
         })?;
         self.policy.close().await?;
-        self.is_closed.store(true, Ordering::SeqCst);
         Ok(())
     }
 
@@ -722,7 +732,7 @@ where
                         }
                     },
                     _ = self.stop_rx.recv().fuse() => {
-                        _ = self.handle_close_event();
+                        _ = self.handle_close_event().await;
                         return;
                     },
                 }
@@ -739,16 +749,18 @@ where
         res
     }
 
+    /// Closes the channels, then empties the cache and releases whoever still waits for
+    /// buffered work.
     #[inline]
-    pub(crate) fn handle_close_event(&mut self) -> Result<(), CacheError> {
+    pub(crate) async fn handle_close_event(&mut self) -> Result<(), CacheError> {
         self.insert_buf_rx.close();
         self.clear_rx.close();
         self.stop_rx.close();
-        // nobody may be left waiting for a clear that will not happen
+        let res = self.handle_clear_event().await;
         while let Ok(wg) = self.clear_rx.try_recv() {
             wg.done();
         }
-        Ok(())
+        res
     }
 
     #[inline]
